@@ -8,7 +8,7 @@ A state is the history that reaches it.  ``Exec.run(pool, history)`` replays the
 clean slate (no handle held, gc.collect() done, interpretation stack at its base) while the boring model of
 ``fv.ref.hashcons`` is stepped in lockstep; after every event the invariants listed in ``LEVEL_RULE`` are evaluated
 on the real objects and compared with the model.  States are de-duplicated on the canonical form ``hashcons.canon``.
-The recipe pool (33 recipes) is explored per sub-pool (every recipe alone, every pair of same-kind recipes, in the
+The recipe pool (39 recipes) is explored per sub-pool (every recipe alone, every pair of same-kind recipes, in the
 thorough tier also every same-kind triple): histories over a sub-pool use every event that is relevant to it.
 """
 import copy
@@ -54,7 +54,8 @@ ASSUMPTIONS = [
     "identity of objects that are no longer referenced is observed only through weakrefs; whether id() was recycled "
     "by realloc is recorded, not prescribed",
     "sub-pool decomposition: interactions among more than two (thorough: three) recipes of the same kind, or between "
-    "recipes of different kinds other than Variable('qq', Bint[7]) x domains, are not explored",
+    "recipes of different kinds other than {Variable('qq', Bint[7]), Lambda(i, v[i]) with v: Reals[2]} x domains, are not "
+    "explored",
     "real array contents are the generic fill (function of VERIF_SEED)",
 ]
 
@@ -140,6 +141,8 @@ class Env:
                 self.code[r.name, "alt"] = compile(r.alt, "<recipe %s alt>" % r.name, "eval")
         self.tables = None
         self.baseline = None
+        self.recording_hot = False
+        self.hot_list = []
         self.frozen = False
 
     # -- intern tables -----------------------------------------------------------------------------------
@@ -169,15 +172,25 @@ class Env:
         return out
 
     def table_sizes(self):
-        return [len(t) for _, _, t in self.tables]
+        """Per table the raw number of entries (a WeakValueDictionary's ``data``: includes entries whose value died
+        but whose key was not removed -- at the clean slate there must be none of those either)."""
+        return [len(d) for d in self.datas]
 
-    def prepare(self, seed):
-        """Warm up every recipe under every interpretation, then fix the table baseline and freeze the heap."""
+    def note_hot(self):
+        for i, d in enumerate(self.datas):
+            if len(d) != self.baseline[i]:
+                self.hot.add(i)
+
+    def prepare(self, seed, only=None):
+        """Warm up every recipe (tests: those in ``only``) under every interpretation, then fix the table baseline
+        and freeze the heap."""
         if self.baseline is not None:
             return
         ex = Exec(seed, env=self)
         warm = []
         for r in H.RECIPE_LIST:
+            if only is not None and r.name not in only:
+                continue
             for i in H.INTERPS if r.kind == "term" else ("eager",):
                 h = ([("sw", i)] if i != "eager" else []) + [("c", r.name), ("c", r.name)]
                 h += [(k, r.name) for k in OBSERVER_KINDS if k != "ri" or r.kind == "term"]
@@ -187,12 +200,17 @@ class Env:
             ex.run(pool, h)
         collect()
         self.tables = self.discover_tables()
+        self.datas = [getattr(t, "data", t) for _, _, t in self.tables]
         b1 = self.table_sizes()
+        self.baseline = b1
+        self.hot = set()  # tables that the recipes touch at all: only these are scanned after every event
+        self.recording_hot = True
         for pool, h in warm:
-            ex.run(pool, h)
+            ex.run(pool, h, check_all=True)
+        self.recording_hot = False
+        self.hot_list = sorted(self.hot)
         collect()
         b2 = self.table_sizes()
-        self.baseline = b1
         self.baseline_unstable = [
             (self.tables[i][0], b1[i], b2[i]) for i in range(len(b1)) if b1[i] != b2[i]
         ]
@@ -370,6 +388,7 @@ class Exec:
             found.append((obj, raw, expr))  # ops and parametrised types: only the top object is registered
         ents = []
         n = 0
+        memo = {}
         for o, s, ex in found:
             if ex is None:
                 continue
@@ -377,14 +396,14 @@ class Exec:
                 continue  # open w.r.t. a gensym'ed name: its identity follows the binder's
             ent = Entry()
             ent.wr = weakref.ref(o)
-            ent.key = H.norm(s)
+            ent.key = H.norm(s, memo)
             ent.k, ent.n, ent.expr = self.k, n, ex
             ent.pred = H.liveness_predicted(ent.key)
             ent.cls = s[1] if s[0] in ("op", "type") else s[0]
             n += 1
             ents.append(ent)
         self.reg.extend(ents)
-        return H.norm(raw), ents
+        return H.norm(raw, memo), ents
 
     # -- invariants --------------------------------------------------------------------------------------
     def check_identity(self):
@@ -509,28 +528,37 @@ class Exec:
 
     def check_tables(self, final=False):
         e = self.e
-        if e.tables is None:
+        if e.baseline is None:
             return
-        for name, imp, t in e.tables:
+        if e.recording_hot:
+            e.note_hot()
+        datas, base = e.datas, e.baseline
+        if final:
+            if e.table_sizes() == base:
+                return
+            todo = range(len(datas))
+        else:
+            todo = e.hot_list
+        for i in todo:
+            d = datas[i]
+            if len(d) == base[i]:
+                continue  # only a table this history has touched can hold a new dead entry
+            name, imp, t = e.tables[i]
             if isinstance(t, weakref.WeakValueDictionary):
-                for k, ref in list(t.data.items()):
+                for k, ref in list(d.items()):
                     if ref() is None and ref not in getattr(t, "_pending_removals", ()):
                         raise Violation(
                             "table:" + name, "dead-entry", "%s holds a dead value under key %r" % (name, k),
                             [_table_get(imp), "assert all(r() is not None for r in list(T.data.values()))"],
                         )
-        if final and e.baseline is not None:
-            sizes = e.table_sizes()
-            if sizes != e.baseline:
-                for (name, imp, t), n, b in zip(e.tables, sizes, e.baseline):
-                    if n != b:
-                        raise Violation(
-                            "table:" + name, "growth",
-                            "after dropping every handle and gc.collect(), len(%s) == %d; it was %d at the clean slate "
-                            "before the history" % (name, n, b),
-                            ["assert len(T) == T_len0, (len(T), T_len0)"],
-                            (), {"table": imp},
-                        )
+            if final:
+                raise Violation(
+                    "table:" + name, "growth",
+                    "after dropping every handle and gc.collect(), %s has %d entries; it had %d at the clean slate "
+                    "before the history" % (name, len(d), base[i]),
+                    ["assert len(T) == T_len0, (len(T), T_len0)"],
+                    (), {"table": imp},
+                )
 
     def _diff_asserts(self, d, base):
         path, exp, act = d
@@ -1018,8 +1046,8 @@ def search_unmerged(pool, depth, seed, rep, ex, collect):
 _CROSSCHECK_PAIRS = [
     ("t0a", "t0b"), ("t1ij", "t1ji"), ("t1ij", "binT"), ("t2r", "delta"), ("t2r", "gauss"), ("t1ij", "gauss"),
     ("t2r", "binTT"), ("red", "lam"), ("red", "ctr"), ("bin", "subs"), ("bin", "stack"), ("var", "bin"),
-    ("var7", "dB7"), ("dB7", "dProd"), ("dR5", "dProd"), ("dB75", "dR5"), ("dR5", "dR57"),
-    ("oS0", "oS1"), ("oSl", "oSl2"), ("tN1", "tN2"),
+    ("var7", "dB7"), ("dB7", "dProd"), ("dR5", "dProd"), ("dProd", "dProd2"), ("dB75", "dR5"), ("dR5", "dR57"), ("dR5", "dR7"), ("lam", "dR5"),
+    ("oS0", "oS1"), ("oSl", "oSl2"), ("oSl", "oSl3"), ("tN1", "tN2"),
 ]
 
 
@@ -1029,7 +1057,7 @@ def plan(tier):
     depth = 7 if tier == "thorough" else 5
     jobs = [{"mode": "merged", "pool": [n], "depth": depth} for n in names]
     pairs = [p for p in combinations(names, 2) if kind[p[0]] == kind[p[1]]]
-    pairs += [("var7", n) for n in names if kind[n] == "dom"]
+    pairs += [(t, n) for t in ("var7", "lam") for n in names if kind[n] == "dom"]
     jobs += [{"mode": "merged", "pool": list(p), "depth": depth} for p in pairs]
     if tier == "thorough":
         triples = [t for t in combinations(names, 3) if len({kind[n] for n in t}) == 1]
